@@ -79,6 +79,18 @@ def enumerate_cases(tier):
     import os
     import random
     seed = int(os.environ.get("VERIF_SEED", "1") or 1)
+    # forward kind: every accepted cell with output times off the step grid, once with fixed steps and once adaptively, with
+    # backward-only keyword arguments that differ from the forward ones
+    for rnd, spec, combo in solve.enumerate_cells(9007, all_levy=False):
+        for adaptive in (False, True):
+            dt = rnd.choice([0.1, 0.125, 0.3])
+            n = rnd.randint(3, 7)
+            t0 = rnd.choice([0.0, 0.1, -0.5])
+            yield {"kind": "forward", "spec": spec, "combo": combo,
+                   "time": {"t0": t0, "t1": t0 + (n + rnd.choice([0.0, 0.4])) * dt, "dt": dt, "tdtype": "float64"},
+                   "outs": [rnd.uniform(0.05, 0.45), rnd.uniform(0.55, 0.95)], "entropy": rnd.randrange(2 ** 31 - 2),
+                   "adaptive": adaptive, "adjoint_kw": rnd.choice(["tols", "tols+adaptive", "adaptive", "options", None]),
+                   "y0_grad": rnd.random() < 0.5}
     for idx, pair in enumerate(admissible_pairs()):
         rnd = random.Random(seed * 7919 + idx)
         fams = FAMILY_FOR[pair["noise_type"]]
@@ -104,7 +116,11 @@ def _forward_case(draw, tier):
     tset = draw(solve.time_setup(max_steps=12))
     return {"kind": "forward", "spec": spec, "combo": combo, "time": tset,
             "outs": draw(st.lists(st.floats(0.02, 0.98), min_size=0, max_size=3)),
-            "entropy": draw(st.integers(0, 2 ** 31 - 2)), "adaptive": draw(st.sampled_from([False, False, True]))}
+            "entropy": draw(st.integers(0, 2 ** 31 - 2)), "adaptive": draw(st.sampled_from([False, False, True])),
+            # keyword arguments that only concern the backward solve (drawn; None = leave at default): they must not
+            # influence the forward values
+            "adjoint_kw": draw(st.sampled_from([None, None, "tols", "adaptive", "tols+adaptive", "options"])),
+            "y0_grad": draw(st.booleans())}
 
 
 @st.composite
@@ -112,7 +128,7 @@ def _book_case(draw, tier):
     spec, combo = draw(solve.spec_and_combo(include_grad_free=False, all_levy=False))
     return {"kind": "bookkeeping", "spec": spec, "combo": combo, "entropy": draw(st.integers(0, 2 ** 31 - 2)),
             "mode": draw(st.sampled_from(["subset_params", "frozen_param", "y0_no_grad", "default_params",
-                                          "empty_params", "renamed_default_params"]))}
+                                          "empty_params", "renamed_default_params", "nonleaf_param"]))}
 
 
 @st.composite
@@ -147,12 +163,26 @@ def _run_forward(case):
     if any(float(b) <= float(a) for a, b in zip(ts[:-1], ts[1:])):
         return Result(labels=["degenerate_ts"])
     kw = dict(adaptive=True, rtol=1e-2, atol=1e-2, dt_min=tm["dt"] / 8) if case["adaptive"] else {}
+    akw = {}
+    ak = case.get("adjoint_kw") or ""
+    if "tols" in ak:
+        akw.update(adjoint_rtol=0.3, adjoint_atol=0.2)
+    if "adaptive" in ak:
+        akw.update(adjoint_adaptive=True)
+    if "options" in ak:
+        akw.update(adjoint_options={"unused_key": 1})
     outs = []
+    import contextlib
+    import warnings
     for fn in (torchsde.sdeint, torchsde.sdeint_adjoint):
         bm = sdes.make_bm(torchsde, spec, ts[0], ts[-1], case["entropy"], levy=combo["levy"])
-        with torch.no_grad():
-            outs.append(fn(sde, y0, ts, bm=bm, method=combo["method"], dt=tm["dt"],
-                           options=dict(combo["options"]) or None, **kw))
+        adj = fn is torchsde.sdeint_adjoint
+        # with a graph (y0 requires grad: the adjoint machinery is engaged) or without (plain evaluation)
+        y_in = y0.clone().requires_grad_(True) if case.get("y0_grad") else y0
+        with (contextlib.nullcontext() if case.get("y0_grad") else torch.no_grad()), warnings.catch_warnings():
+            warnings.simplefilter("ignore")
+            outs.append(fn(sde, y_in, ts, bm=bm, method=combo["method"], dt=tm["dt"],
+                           options=dict(combo["options"]) or None, **kw, **(akw if adj else {})).detach())
     sig = {"method": combo["method"], "noise_type": spec["noise_type"], "kind": "forward"}
     fail = None
     if not torch.equal(outs[0], outs[1]):
@@ -161,7 +191,9 @@ def _run_forward(case):
                                              f"{float((outs[0] - outs[1]).abs().max()):.3e}", sig)
     steps = (tm["t1"] - tm["t0"]) / tm["dt"]
     return Result(nontrivial=steps >= 3, labels=["kind=forward", solve.combo_label(combo),
-                                                 "adaptive" if case["adaptive"] else "fixed"], checks=1, fail=fail)
+                                                 "adaptive" if case["adaptive"] else "fixed", f"adjoint_kwargs={ak or 'default'}",
+                                                 "with_graph" if case.get("y0_grad") else "no_grad"],
+                  checks=1, fail=fail)
 
 
 def _run_book(case):
@@ -202,6 +234,27 @@ def _run_book(case):
                 return self.base.g(t, y)
         run_sde = Renamed(sde)
         kw["names"] = {"drift": "drift_fn", "diffusion": "diffusion_fn"}
+    w_leaf = None
+    if mode == "nonleaf_param":
+        # an adjoint parameter that is the output of another computation (a context from an encoder, theta = A @ w): it was
+        # asked for, so whatever it was computed from must receive a gradient
+        w_leaf = torch.tensor([0.3, -0.2, 0.5], dtype=torch.float64, requires_grad=True)
+        a_mat = torch.tensor([[1.0, 0.5, -0.5], [0.25, -1.0, 0.75]], dtype=torch.float64)
+        theta = a_mat @ w_leaf
+
+        class WithContext(torch.nn.Module):
+            def __init__(self, base, th):
+                super().__init__()
+                self.base, self.th = base, th
+                self.noise_type, self.sde_type = base.noise_type, base.sde_type
+
+            def f(self, t, y):
+                return self.base.f(t, y) * (1.0 + self.th[0]) + self.th[1]
+
+            def g(self, t, y):
+                return self.base.g(t, y)
+        run_sde = WithContext(sde, theta)
+        kw["adjoint_params"] = (theta,) + tuple(sde.parameters())
     ys = torchsde.sdeint_adjoint(run_sde, y0, ts, bm=bm, method=combo["method"], dt=0.125, **kw)
     sig = {"mode": mode, "kind": "bookkeeping", "method": combo["method"]}
     if not ys.requires_grad:
@@ -223,6 +276,12 @@ def _run_book(case):
             return Result(nontrivial=True, checks=checks, fail=Fail(
                 "bookkeeping:unrequested_gradient", f"parameter {name} was not asked for but received a gradient "
                                                     f"({mode})", sig))
+    if w_leaf is not None:
+        checks += 1
+        if w_leaf.grad is None or float(w_leaf.grad.abs().max()) == 0.0:
+            return Result(nontrivial=True, checks=checks, fail=Fail(
+                "bookkeeping:missing_gradient", "a non-leaf tensor (theta = A @ w) was passed in adjoint_params and the drift "
+                "depends on it, but nothing reaches w (gradient " + ("None" if w_leaf.grad is None else "zero") + ")", sig))
     checks += 1
     if (y0.grad is None) != (mode == "y0_no_grad"):
         return Result(nontrivial=True, checks=checks, fail=Fail(
